@@ -308,7 +308,7 @@ class SeriesOps:
                         cols[f"{c}\x1f{fn}" if len(fns) > 1 or isinstance(spec, list) else c] = T.agg(str(fn), f.col(c), ctx, keyterms)
                 return mk(cols)
             self.log("unmodelled", node, what="groupby.agg without column selection")
-            return Frame(("gbagg-opaque", base, to_term(spec)))
+            return Frame(("gbagg-opaque", base, to_term(spec)), known=None, resolver=lambda n: T.opaque(f"column {n!r} of a groupby.agg form that is not modelled"))
         if name in REDUCTIONS or name in ("std", "median"):
             if isinstance(sel, str):
                 out = mk({sel: T.agg(name, f.col(sel), ctx, keyterms)})
@@ -522,6 +522,10 @@ class SeriesOps:
         if short == "pairwise" and len(pos) == 1 and not kw and I._concrete_seq(a0) is not None and not any(isinstance(x, Each) for x in I._concrete_seq(a0)):
             seq_ = I._concrete_seq(a0)          # itertools.pairwise / nx.utils.pairwise over known elements: the consecutive pairs
             return [PyTuple([x, y]) for x, y in zip(seq_, seq_[1:])]
+        if name in ("pd.NamedAgg", "pandas.NamedAgg"):          # NamedAgg(column, aggfunc) is the pair (column, aggfunc)
+            c_, f_ = kw.get("column", pos[0] if pos else None), kw.get("aggfunc", pos[1] if len(pos) > 1 else None)
+            if isinstance(c_, str) and f_ is not None:
+                return PyTuple([c_, f_])
         if name == "pd.concat":
             frames = a0 if isinstance(a0, list) else (a0.items if isinstance(a0, PyTuple) else [Each(a0)] if not isinstance(a0, Frame) else [a0])
             if isinstance(a0, tuple) and a0 and a0[0] == "comp":
